@@ -27,7 +27,7 @@ RULE = ('maps built through the public API by rv/gen_vmf.py (entity keys/values 
         'floats exact); export(parse(export(m))) == export(m) textually (modulo a consistent ID bijection). '
         'Generator restrictions are listed at the top of rv/gen_vmf.py. Non-trivial = map with >= 1 brush, output or '
         'fixup; distinct = distinct first export text.')
-ASSUMPTIONS = ['PYTHONHASHSEED=0 (set iteration order of visgroup ids influences export text)',
+ASSUMPTIONS = ['PYTHONHASHSEED pinned to VERIF_SEED (set iteration order of visgroup ids influences export text)',
                'inc_version=False for the fixed-point comparison (export documents bumping map_ver)',
                'restrictions at the top of rv/gen_vmf.py (what the VMF grammar cannot carry)']
 JOBS = {'quick': 4, 'thorough': 16}
